@@ -188,7 +188,7 @@ func init() {
 		Level: "exploration",
 		Rule: "(a) every advertised algorithm name (3 encr, 3 integ, 3 prf, 2 dh, 2 esn; IKE and Child variants) → ToTransform → decode, directly and after SA.Marshal/Unmarshal: same identifier and the key/output/PRF lengths of the RFC table; (b) all single-choice IKE proposals (54) through ToProposal → wire → NewIKESAKey and all Child proposals (3×4×3×2) through ToProposal → wire → NewChildSAKeyByProposal; " +
 			"(c) negative space: transform identifiers 0..1023 ∪ boundary values (thorough: all 65536) × attribute classes {absent; key length TV with the boundary value set; for AES-CBC all 65536 values; TV of other types incl. 0, 13, 15, 14+128k (k=1..255), 0x7FFF; TLV type 14 with 128/192/256} × the 7 decode functions, directly and after the wire; (d) proposals with one unsupported transform in each slot must make SA construction fail. " +
-			"Oracle: reference table id → (algorithm, key, output length); a result is that algorithm or 'unsupported', never another identifier or key size; advertised combinations must be supported. distinct_nontrivial = distinct (function, transform, wire) cases that mapped to a supported algorithm",
+			"The advertised set is walked twice, every transform / proposal the library hands out being overwritten by its holder after use; all advertised combinations are also offered as the proposals of one SA payload (every count 1..54 IKE, 1..54 Child SA) that must survive the wire. Oracle: reference table id → (algorithm, key, output length); a result is that algorithm or 'unsupported', never another identifier or key size; advertised combinations must be supported. distinct_nontrivial = distinct (function, transform, wire) cases that mapped to a supported algorithm",
 		Run: runC11,
 		Replay: func(c *engine.Ctx, raw json.RawMessage) {
 			var cs c11Case
@@ -505,7 +505,139 @@ func c11Raw(c *engine.Ctx, attrs []byte) {
 	c.DistinctS("raw" + cs.Raw)
 }
 
+// c11Advertised: the advertised set, twice in a row: every transform the library hands out belongs to the caller, who
+// edits it after use (offers another key size, another identifier); what is handed out next is faithful again.
 func c11Advertised(c *engine.Ctx) {
+	for pass := 0; pass < 2; pass++ {
+		c11AdvertisedPass(c, pass)
+	}
+	c11AllInOne(c)
+}
+
+// c11AllInOne: every advertised combination as one proposal of a single SA payload (an initiator offering all it
+// supports), for every number of proposals 1..54 (IKE) / 1..54 (Child SA with integrity): each proposal survives the wire and maps
+// back to its algorithms.
+func c11AllInOne(c *engine.Ctx) {
+	cs := c11Case{K: "advertised"}
+	var ike []*message.Proposal
+	var ikeCfg [][]int
+	for p := 0; p < 3; p++ {
+		for i := 0; i < 3; i++ {
+			for e := 0; e < 3; e++ {
+				for d := 0; d < 2; d++ {
+					prop, err := infoSA(c07Case{PRF: p, Integ: i, Encr: e, DH: d}).ToProposal()
+					if err != nil {
+						c.Violate("proposal-ike/toproposal", errStr(err), cs)
+						return
+					}
+					ike = append(ike, prop)
+					ikeCfg = append(ikeCfg, []int{p, i, e, d})
+				}
+			}
+		}
+	}
+	for k := 1; k <= len(ike); k++ {
+		c.Evals++
+		sa := &message.SecurityAssociation{}
+		for i := 0; i < k; i++ {
+			ike[i].ProposalNumber = uint8(i + 1)
+			ike[i].ProtocolID = 1
+			sa.Proposals = append(sa.Proposals, ike[i])
+		}
+		var b []byte
+		var err error
+		r := &message.SecurityAssociation{}
+		if pi := engine.Catch(func() {
+			if b, err = sa.Marshal(); err == nil {
+				err = r.Unmarshal(b)
+			}
+		}); pi != nil {
+			c.Violate(pi.Sig(), "SA payload with all advertised proposals panics: "+pi.Value, cs)
+			return
+		}
+		if err != nil || len(r.Proposals) != k {
+			c.Violate("advertised/all-in-one/wire-refused", fmt.Sprintf("an SA payload offering the first %d of the 54 advertised IKE combinations (%d octets) does not survive the wire: %v (%d proposals decoded)", k, len(b), err, len(r.Proposals)), cs)
+			return
+		}
+		// the last proposal (the one that was added at this size) maps back to its algorithms
+		cfg := ikeCfg[k-1]
+		rp := r.Proposals[k-1]
+		seam := engine.NewSeam(nil, nil)
+		restore := engine.Install(seam)
+		var key *security.IKESAKey
+		pi := engine.Catch(func() { key, _, err = security.NewIKESAKey(rp, []byte{2}, univ.Pat(32, 1), 1, 2) })
+		restore()
+		if pi != nil || err != nil {
+			c.Violate("advertised/all-in-one/rejected", fmt.Sprintf("proposal %d of %d (cfg %v) after the wire: %v %v", k, k, cfg, pi, err), cs)
+			return
+		}
+		p, ig, el := ref.PRFs[cfg[0]], ref.Integs[cfg[1]], ref.EncrKeyLens[cfg[2]]
+		if key.PrfInfo.TransformID() != p.ID || key.IntegInfo.TransformID() != ig.ID || key.IntegInfo.GetKeyLength() != ig.KeyLen || key.EncrInfo.GetKeyLength() != el || key.DhInfo.TransformID() != dhIDs[cfg[3]] {
+			c.Violate("advertised/all-in-one/not-faithful", fmt.Sprintf("proposal %d of %d (cfg %v) maps to prf %d integ %d encr key %d dh %d", k, k, cfg, key.PrfInfo.TransformID(), key.IntegInfo.TransformID(), key.EncrInfo.GetKeyLength(), key.DhInfo.TransformID()), cs)
+			return
+		}
+	}
+	c.Count("all_in_one_ike_payloads", int64(len(ike)))
+	var child []*message.Proposal
+	for e := 0; e < 3; e++ {
+		for i := 0; i < 3; i++ { // (NewChildSAKeyByProposal insists on an integrity transform; see c11ChildProposal)
+			for d := 0; d < 3; d++ {
+				for es := 0; es < 2; es++ {
+					ch := &security.ChildSAKey{EncrKInfo: encr.StrToKType(univ.EncrName(ref.EncrKeyLens[e]))}
+					ch.IntegKInfo = integ.StrToKType(univ.IntegName(ref.Integs[i]))
+					if d > 0 {
+						ch.DhInfo = dh.StrToType(dhNames[d-1])
+					}
+					ch.EsnInfo, _ = esn.StrToType([]string{"ESN_DISABLE", "ESN_ENABLE"}[es])
+					prop, err := ch.ToProposal()
+					if err != nil {
+						continue
+					}
+					child = append(child, prop)
+				}
+			}
+		}
+	}
+	for k := 1; k <= len(child); k++ {
+		c.Evals++
+		sa := &message.SecurityAssociation{}
+		for i := 0; i < k; i++ {
+			child[i].ProposalNumber = uint8(i + 1)
+			child[i].ProtocolID = 3
+			child[i].SPI = univ.Pat(4, i)
+			sa.Proposals = append(sa.Proposals, child[i])
+		}
+		var b []byte
+		var err error
+		r := &message.SecurityAssociation{}
+		if pi := engine.Catch(func() {
+			if b, err = sa.Marshal(); err == nil {
+				err = r.Unmarshal(b)
+			}
+		}); pi != nil {
+			c.Violate(pi.Sig(), "SA payload with all advertised Child SA proposals panics: "+pi.Value, cs)
+			return
+		}
+		if err != nil || len(r.Proposals) != k {
+			c.Violate("advertised/all-in-one/wire-refused", fmt.Sprintf("an SA payload offering %d advertised Child SA combinations (%d octets) does not survive the wire: %v (%d proposals decoded)", k, len(b), err, len(r.Proposals)), cs)
+			return
+		}
+		var key *security.ChildSAKey
+		if pi := engine.Catch(func() { key, err = security.NewChildSAKeyByProposal(r.Proposals[k-1]) }); pi != nil || err != nil || key == nil {
+			c.Violate("advertised/all-in-one/rejected", fmt.Sprintf("Child SA proposal %d of %d after the wire: %v %v", k, k, pi, err), cs)
+			return
+		}
+		back, err := key.ToProposal()
+		if err != nil || engine.Dump(back.EncryptionAlgorithm) != engine.Dump(child[k-1].EncryptionAlgorithm) || engine.Dump(back.IntegrityAlgorithm) != engine.Dump(child[k-1].IntegrityAlgorithm) ||
+			engine.Dump(back.DiffieHellmanGroup) != engine.Dump(child[k-1].DiffieHellmanGroup) || engine.Dump(back.ExtendedSequenceNumbers) != engine.Dump(child[k-1].ExtendedSequenceNumbers) {
+			c.Violate("advertised/all-in-one/not-faithful", fmt.Sprintf("Child SA proposal %d of %d does not map back to the algorithms it was built from (%v)", k, k, err), cs)
+			return
+		}
+	}
+	c.Count("all_in_one_child_payloads", int64(len(child)))
+}
+
+func c11AdvertisedPass(c *engine.Ctx, pass int) {
 	cs := c11Case{K: "advertised"}
 	chk := func(what string, lt *message.Transform, f decodeFn, wantID uint16, wantKey, wantOut int) {
 		c.Evals++
@@ -525,6 +657,7 @@ func c11Advertised(c *engine.Ctx) {
 			}
 		}
 		c.DistinctS("adv" + what)
+		engine.Scribble(lt) // the caller's copy is edited after use
 	}
 	fns := decodeFns()
 	for _, kl := range ref.EncrKeyLens {
@@ -619,6 +752,12 @@ func proposalViaWire(p *message.Proposal) (*message.Proposal, error) {
 }
 
 func c11IKEProposal(c *engine.Ctx, cfg []int) {
+	// twice: the proposal obtained first is edited by its holder before the second one is asked for
+	c11IKEProposalOnce(c, cfg)
+	c11IKEProposalOnce(c, cfg)
+}
+
+func c11IKEProposalOnce(c *engine.Ctx, cfg []int) {
 	c.Evals++
 	cc := c07Case{PRF: cfg[0], Integ: cfg[1], Encr: cfg[2], DH: cfg[3]}
 	cs := c11Case{K: "proposal-ike", Cfg: cfg}
@@ -654,9 +793,15 @@ func c11IKEProposal(c *engine.Ctx, cfg []int) {
 		return
 	}
 	c.DistinctS(fmt.Sprint("ikeprop", cfg))
+	engine.Scribble(prop)
 }
 
 func c11ChildProposal(c *engine.Ctx, cfg []int) {
+	c11ChildProposalOnce(c, cfg)
+	c11ChildProposalOnce(c, cfg)
+}
+
+func c11ChildProposalOnce(c *engine.Ctx, cfg []int) {
 	c.Evals++
 	cs := c11Case{K: "proposal-child", Cfg: cfg}
 	ch := &security.ChildSAKey{EncrKInfo: encr.StrToKType(univ.EncrName(ref.EncrKeyLens[cfg[0]]))}
@@ -712,6 +857,7 @@ func c11ChildProposal(c *engine.Ctx, cfg []int) {
 		return
 	}
 	c.DistinctS(fmt.Sprint("childprop", cfg))
+	engine.Scribble(prop)
 }
 
 // c11BadProposal: a proposal whose transform in one slot is unsupported must not yield an SA.
